@@ -58,4 +58,17 @@ def firstBad : List String → String
   | [] => "ok"
   | v :: vs => if v = "ok" then firstBad vs else v
 
+/-! ### hypotheses of the partial theorems -/
+
+/-- an acknowledgement is *in consumption order* when every earlier-consumed record of the same
+    topic/partition is already finished (acknowledged or dropped) -/
+def AckInOrder (s : State) : Op → Prop
+  | .ack i => ∀ j ri rj, j < i → s.recs[j]? = some rj → s.recs[i]? = some ri → rj.tp = ri.tp → j ∈ s.finished
+  | _ => True
+
+/-- every acknowledgement of the run is in consumption order -/
+def OrderedRun (c : Cfg) : State → List Op → Prop
+  | _, [] => True
+  | s, op :: ops => AckInOrder s op ∧ ∀ s', step? c s op = some s' → OrderedRun c s' ops
+
 end FileD.SpecC10
